@@ -99,7 +99,10 @@ def render(case):
             L.append("    int m3_%d(int k) { self.m1_%d(k); return self.m0_%d(); }" % (i, i, i))
         L.append("}")
     for i in range(ni):
-        L.append("void obs%d(I%d x) { x.m1_%d(1); println(x.m0_%d()); }" % (i, i, i, i))
+        # the by-value interface parameter is named like one of main's interface variables (p0 / p1): it is a fresh copy
+        # nevertheless
+        pn = "p%d" % (i % 2)
+        L.append("void obs%d(I%d %s) { %s.m1_%d(1); println(%s.m0_%d()); }" % (i, i, pn, pn, i, pn, i))
     L.append("int main() {")
     for n, (j, v) in enumerate(conc):
         L.append("    T%d c%d; c%d.v = %d;" % (j, n, n, v))
